@@ -93,6 +93,8 @@ type Ctx struct {
 	Cancelled bool
 	CancelSeq uint64
 	CancelAt  int64
+	CancelDoneAt int64
+	CancelDone   bool
 	// HasDeadline/DeadlineAt: the context expires by itself at this simulated time (ns since start).
 	HasDeadline bool
 	DeadlineAt  int64
@@ -154,6 +156,23 @@ func (c *Ctx) Cancel() {
 	c.CancelSeq = sim.Seq()
 	c.CancelAt = int64(sim.Now())
 	c.cancel()
+	c.CancelDoneAt, c.CancelDone = int64(sim.Now()), true
+}
+
+// EndedBy returns an instant by which the context had certainly ended (its deadline, or the moment
+// a Cancel call had returned - the cancelling task may have been descheduled inside the call, so
+// the moment Cancel was invoked is only a lower bound).
+func (c *Ctx) EndedBy() (int64, bool) {
+	at, ok := int64(0), false
+	for x := c; x != nil; x = x.Parent {
+		if x.CancelDone && (!ok || x.CancelDoneAt < at) {
+			at, ok = x.CancelDoneAt, true
+		}
+		if x.HasDeadline && int64(sim.Now()) >= x.DeadlineAt && (!ok || x.DeadlineAt < at) {
+			at, ok = x.DeadlineAt, true
+		}
+	}
+	return at, ok
 }
 
 // Dead reports whether the context has been cancelled by the harness (or its parent has).
@@ -356,11 +375,31 @@ func NewDeadlineCtx(parent *Ctx, name string, d time.Duration) *Ctx {
 func LibraryTasks() []*sim.Task {
 	var out []*sim.Task
 	for _, t := range sim.LiveTasks() {
+		if episodeLeftovers[t] {
+			continue
+		}
 		if strings.Contains(t.Name, ".go:") || strings.HasPrefix(t.Name, "time.AfterFunc") {
 			out = append(out, t)
 		}
 	}
 	return out
+}
+
+// episodeLeftovers holds the library goroutines that the first episode of a two-episode run left
+// behind with the world's consent (for instance an input that never returns and ignores its
+// context): they are not the second episode's business.
+var episodeLeftovers map[*sim.Task]bool
+
+// BeginEpisode is called by the runner before each episode of a run.
+func BeginEpisode(n int) {
+	episodeLeftovers = nil
+	if n > 0 {
+		left := map[*sim.Task]bool{}
+		for _, t := range LibraryTasks() {
+			left[t] = true
+		}
+		episodeLeftovers = left
+	}
 }
 
 func taskNames(ts []*sim.Task) string {
